@@ -77,11 +77,7 @@ impl Twins {
         };
         let b = self.nat.step(nop);
         let what = format!("{} cw20:{} native:{}", op.name(), if a.tx.ok { "ok" } else { "failed" }, if b.tx.ok { "ok" } else { "failed" });
-        // a cw20 failure that comes from the token itself (allowance / balance) has no native twin
-        let token_specific = !a.tx.ok && (a.tx.err.contains("transfer failure") || a.tx.err.contains("llowance") || a.tx.err.contains("Cannot Sub"));
-        if !token_specific {
-            prove_d("C13/same-success-or-failure", Cond::from_bool(a.tx.ok == b.tx.ok), format!("{} cw20-err={} native-err={}", what, sx::norm(&a.tx.err), sx::norm(&b.tx.err)));
-        }
+        prove_d("C13/same-success-or-failure", Cond::from_bool(a.tx.ok == b.tx.ok), format!("{} cw20-err={} native-err={}", what, sx::norm(&a.tx.err), sx::norm(&b.tx.err)));
         if !(a.tx.ok && b.tx.ok) {
             return (a.tx.ok, b.tx.ok);
         }
@@ -120,7 +116,8 @@ impl Twins {
 }
 
 /// histories: kind 0 open; 1 open+increase; 2 open+opposite; 3 open, counter-trade, close;
-/// 4 open, deposit, withdraw; 5 open, counter-trade, liquidate
+/// 4 open, deposit, withdraw; 5 open, counter-trade, liquidate; 6 as 3 but the trader's wallet is
+/// emptied (a transfer to a third party, in both deployments) before the close
 fn lockstep(kind: u8, side: Side, fees: bool, seed: u64) -> impl Fn() {
     move || {
         let mut t = twins(fees, kind == 5 && seed % 2 == 1);
@@ -140,7 +137,7 @@ fn lockstep(kind: u8, side: Side, fees: bool, seed: u64) -> impl Fn() {
                 let s2 = if kind == 1 { side.clone() } else { opp(&side) };
                 t.step(Op::Open { who: ALICE, side: s2, margin: m2, lev, limit: Uint128::zero(), funds: None });
             }
-            3 | 5 => {
+            3 | 5 | 6 => {
                 let m2 = amount("m2", d, false, if kind == 5 { 5 + 40 * (seed % 2) as u128 } else { 15 });
                 let (ok, _) = t.step(Op::Open { who: BOB, side: opp(&side), margin: m2, lev, limit: Uint128::zero(), funds: None });
                 if !ok {
@@ -148,7 +145,19 @@ fn lockstep(kind: u8, side: Side, fees: bool, seed: u64) -> impl Fn() {
                 }
                 t.next_block(1000);
                 symrt::set_full(true);
-                if kind == 3 {
+                if kind == 6 {
+                    // leave `keep` in alice's wallet in both deployments (symbolic, down to 0)
+                    let keep = amount("keep", d, false, 0);
+                    for w in [&mut t.cw.w, &mut t.nat.w] {
+                        let bal = w.balance(&addr(ALICE));
+                        if let Ok(Some(out)) = symrt::catch(|| bal.checked_sub(keep).ok()) {
+                            if !out.is_zero() {
+                                w.transfer(ALICE, &addr("sink"), out);
+                            }
+                        }
+                    }
+                }
+                if kind == 3 || kind == 6 {
                     t.step(Op::Close { who: ALICE, limit: Uint128::zero() });
                 } else {
                     t.step(Op::Liquidate { by: LIQ, trader: ALICE, limit: Uint128::zero() });
@@ -168,7 +177,7 @@ fn lockstep(kind: u8, side: Side, fees: bool, seed: u64) -> impl Fn() {
 pub fn scenarios(seed: u64) -> Vec<Scenario> {
     let mut v = vec![];
     let d = "twin deployments (native uwasm / cw20, 6 decimals, same parameters), same symbolic history in lock-step; per step: same success, Position records, vAMM state, engine state and per-account balance deltas proved equal";
-    let kinds = [(0u8, "open"), (1, "increase"), (2, "opposite"), (3, "close"), (4, "depwd"), (5, "liquidate")];
+    let kinds = [(0u8, "open"), (1, "increase"), (2, "opposite"), (3, "close"), (4, "depwd"), (5, "liquidate"), (6, "close.thin-wallet")];
     for (k, kn) in kinds {
         for (side, sn) in [(Side::Buy, "long"), (Side::Sell, "short")] {
             for fees in [false, true] {
